@@ -3,6 +3,7 @@
 
 mod alloc;
 mod alpha;
+mod catalogue;
 mod checks;
 mod explore;
 mod q;
